@@ -41,7 +41,7 @@ from . import kernel as _KN   # noqa: E402
 CONTRACTS += [_clone(_c, callees=_KN.CALLEES, lib=_KN.LIB, hooks=_KN.HOOKS, home="c01") for _c in (_KN.bml, _KN.bgp)]
 
 
-def EXTRA():
+def _EXTRA0():
     from jvc import effects
     # call-history independence of the Python plumbing: no module-level cache or other state is written by these modules
     out = [dict(r, name="C05/effects/" + r["name"]) for r in effects.check_module_state(
@@ -50,3 +50,8 @@ def EXTRA():
     out += [r for r in effects.check_option_forwarding(["thejoker.thejoker.TheJoker.marginal_ln_likelihood", "thejoker.thejoker.TheJoker.rejection_sample",
                                                         "thejoker.thejoker.TheJoker.iterative_rejection_sample"], PROPERTY) if "n_batches" in r["name"]]
     return out
+
+
+def EXTRA():
+    from . import chain as _CHX
+    return list(_EXTRA0()) + _CHX.frame_effects(PROPERTY)
